@@ -136,10 +136,16 @@ def facade_records(rng, quick):
                     cands = facade.pumps + facade.blowers
                     if not cands:
                         return
+                    # the other user devices (lights) are switched too: they must not count
+                    n_pb = len(cands)
+                    others = [d for d in facade.lights if hasattr(d, "_state_sensor")]
+                    cands = cands + others
                     state_accs = [d._state_sensor.accessor for d in cands]
                     combos = list(itertools.product([0, 1], repeat=len(cands)))
                     if len(combos) > 32:
                         combos = rng.sample(combos, 32) + [tuple([0] * len(cands)), tuple([1] * len(cands))]
+                    if others:
+                        combos.append(tuple([0] * n_pb + [1] * len(others)))
                     facades = [facade]
                     # history: after the sweep, everything on (active), the facade is torn down, the
                     # devices stop while disconnected, a new facade is built (a reconnect): idle again
@@ -157,7 +163,7 @@ def facade_records(rng, quick):
                                     w_ = val
                                 st.replace_status_block_segment(a.pos, w_.to_bytes(a.length, "big"))
                             facade = GeckoAsyncFacade(spa, tm)
-                            cands = facade.pumps + facade.blowers
+                            cands = facade.pumps + facade.blowers + [d for d in facade.lights if hasattr(d, "_state_sensor")]
                             state_accs = [d._state_sensor.accessor for d in cands]
                             continue
                         for a, on in zip(state_accs, combo):
@@ -177,12 +183,12 @@ def facade_records(rng, quick):
                         facade._on_config_device_change()
                         live = {m: getattr(cfg.GeckoConfig, m) for m in members}
                         mode = "active" if live == act else "idle" if live == idl else "mixed"
-                        on = []
-                        for d, a in zip(cands, state_accs):
+                        on, other = [], []
+                        for i_, (d, a) in enumerate(zip(cands, state_accs)):
                             v = a.value
-                            on.append({"cls": d.device_class, "type": a.type, "raw": int(a.raw_value),
-                                       "label": v if isinstance(v, str) else ""})
-                        recs.append({"on": on, "mode": mode})
+                            (on if i_ < n_pb else other).append({"cls": d.device_class, "type": a.type, "raw": int(a.raw_value),
+                                                                 "label": v if isinstance(v, str) else ""})
+                        recs.append({"on": on, "other": other, "mode": mode})
                         meta.append(f"{c['name']}+{l['name']}")
                 finally:
                     await tm.__aexit__(None)
